@@ -253,6 +253,30 @@ theorem all_is_drain (m : Dec α) : ∀ (fuel : Nat) (s : IterSt),
       | error e => exact ⟨[], rfl, rfl⟩
       | panic => trivial
 
+/-- a definite iterator answers at most as often as its declared length says, errors included, however the elements fail: after
+    `left` answers it is exhausted (`allx` = `next` until `None`, carrying on after failed elements). -/
+theorem allx_definite_length (m : Dec α) : ∀ (cap n : Nat) (bs : Bytes),
+    (Script.allx m cap ⟨some n, bs⟩).1.length ≤ n := by
+  intro cap
+  induction cap with
+  | zero => intro n bs; exact Nat.zero_le _
+  | succ c ih =>
+    intro n bs
+    cases n with
+    | zero => exact Nat.le_refl _
+    | succ k =>
+      unfold Script.allx
+      show (match iterRun m (some k) bs with
+        | (.done, s') => (([] : List (Script.Ev α)), s')
+        | (.item a, s') => (let (evs, s'') := Script.allx m c s'; (.item a :: evs, s''))
+        | (.error e, s') => (let (evs, s'') := Script.allx m c s'; (.error e :: evs, s''))
+        | (.panic, s') => ([.panic], s')).1.length ≤ k + 1
+      unfold iterRun
+      cases m bs with
+      | ok a r => exact Nat.succ_le_succ (ih k r)
+      | err e r => exact Nat.succ_le_succ (ih k r)
+      | panic => exact Nat.succ_le_succ (Nat.zero_le _)
+
 /-- `skip(0)`, `nth(0)`-then-rest and `take(0)`-then-rest add nothing to plain iteration. -/
 theorem skip_zero (m : Dec α) (fuel : Nat) (s : IterSt) : Script.skip m fuel 0 s = Script.all m fuel s := rfl
 
